@@ -325,10 +325,13 @@ def run_driver(case_lines, timeout=1800):
 
 # ---------------------------------------------------------------- known findings
 def load_known():
-    p = os.path.join(VERIF, 'known_findings.json')
-    if not os.path.exists(p):
-        return []
-    return json.load(open(p)).get('findings', [])
+    """known_findings.json plus per-property files known_findings.d/*.json (never written at run time)"""
+    out = []
+    files = [os.path.join(VERIF, 'known_findings.json')] + sorted(glob.glob(os.path.join(VERIF, 'known_findings.d', '*.json')))
+    for p in files:
+        if os.path.exists(p):
+            out += json.load(open(p)).get('findings', [])
+    return out
 
 
 def known_match(known, prop, component, kind):
